@@ -558,8 +558,13 @@ class Interp:
                 type(stmt).__name__, fr.fn.module.relpath, stmt.lineno))
         return method(stmt, st, fr)
 
+    _FACT_KINDS = frozenset(('call', 'store', 'raise', 'del', 'susp', 'return', 'yield',
+                             'enter', 'hole'))
+
     def _emit(self, st: St, kind, node, fr: DynFrame, **data) -> Event:
         event = Event(kind, node, fr.frame, fr.depth, **data)
+        if kind in self._FACT_KINDS:
+            event.data['facts'] = dict(st.facts)
         st.events.append(event)
         return event
 
